@@ -4,7 +4,8 @@
  * and carries a unique token; a global ledger records every construction, in-place assignment and destruction.
  *
  * Op file (containers are named 0..63):
- *   new c K            K in A L T R B   (Array, List, Table, Tree of probes; B = Array of Box)
+ *   new c K            K in A L T R B   (Array, List, Table, Tree of probes; B = Array of Box); A/L may be followed by the
+ *                      element type (p = small probe, g = large probe), T/R by key and value type: Ag, Tpg, Rgp, ...
  *   newv c K p...      K in A L         constructor with initial elements           (Array_New / List_New)
  *   newm c K k v ...   K in T R         constructor with initial pairs              (Table_New / Tree_New)
  *   box c p            stand-alone Box owning a fresh probe
@@ -375,6 +376,20 @@ static int parse_int(const char* s, int64_t* out, int allow_neg) {
 #define MAXTOK 300
 #define RN(e) ((e) ? v_exc_name(e) : "ok")
 
+/* kind token: A | L | T | R | B, optionally followed by the element types (p = small probe, g = large):
+   one letter for A / L (element), two for T / R (key, value); none for B */
+static int parse_kind(const char* s, const char* allowed, int* K, int* kt, int* vt) {
+  if (!s[0] || !strchr(allowed, s[0])) return 0;
+  *K = s[0]; *kt = *vt = 0;
+  size_t n = strlen(s + 1);
+  for (size_t i = 0; i < n; i++) if (s[1+i] != 'p' && s[1+i] != 'g') return 0;
+  if (n == 0) return 1;
+  if ((*K == 'A' || *K == 'L') && n == 1) { *kt = s[1] == 'g'; return 1; }
+  if ((*K == 'T' || *K == 'R') && n == 2) { *kt = s[1] == 'g'; *vt = s[2] == 'g'; return 1; }
+  return 0;
+}
+static var ty(int big) { return big ? Big : Probe; }
+
 static int free_name(int64_t c) { return c >= 0 && c < NC && !sh[c].kind; }
 static int used_name(int64_t c) { return c >= 0 && c < NC && sh[c].kind; }
 
@@ -392,32 +407,32 @@ static int run_op(var* H, char** tk, int nt) {
   reset_events();
   #define NUM(ix, var_, neg) (parse_int(tk[ix], &(var_), neg))
   if (!strcmp(op, "new")) {
-    if (nt != 3 || !NUM(1, c, 0) || strlen(tk[2]) != 1 || !strchr("ALTRB", tk[2][0]) || !free_name(c)) return 0;
-    int K = tk[2][0];
+    int K, kt, vt;
+    if (nt != 3 || !NUM(1, c, 0) || !parse_kind(tk[2], "ALTRB", &K, &kt, &vt) || !free_name(c)) return 0;
     switch (K) {
-      case 'A': H[c] = new(Array, Probe); break;
-      case 'L': H[c] = new(List, Probe); break;
-      case 'T': H[c] = new(Table, Probe, Probe); break;
-      case 'R': H[c] = new(Tree, Probe, Probe); break;
+      case 'A': H[c] = new(Array, ty(kt)); break;
+      case 'L': H[c] = new(List, ty(kt)); break;
+      case 'T': H[c] = new(Table, ty(kt), ty(vt)); break;
+      case 'R': H[c] = new(Tree, ty(kt), ty(vt)); break;
       case 'B': H[c] = new(Array, Box); break;
     }
-    sh[c].kind = K; check_and_print(H, "ok", (int)c, -1); return 1;
+    sh[c].kind = K; sh[c].kt = kt; sh[c].vt = vt; check_and_print(H, "ok", (int)c, -1); return 1;
   }
   if (!strcmp(op, "newv") || !strcmp(op, "newm")) {
     int m = op[3] == 'm';
-    if (nt < 3 || !NUM(1, c, 0) || strlen(tk[2]) != 1 || !strchr(m ? "TR" : "AL", tk[2][0]) || !free_name(c)) return 0;
+    int K, kt, vt;
+    if (nt < 3 || !NUM(1, c, 0) || !parse_kind(tk[2], m ? "TR" : "AL", &K, &kt, &vt) || !free_name(c)) return 0;
     int na = nt - 3; if (m && na % 2) return 0;
     int64_t* ps = malloc((na + 1) * sizeof(int64_t));
     for (int j = 0; j < na; j++) if (!NUM(3 + j, ps[j], 0)) { free(ps); return 0; }
-    int K = tk[2][0];
     ArgBuf* abs = malloc((na + 1) * sizeof(ArgBuf));
     var* items = malloc((na + 4) * sizeof(var));
-    int q = 0; items[q++] = Probe; if (m) items[q++] = Probe;
-    for (int j = 0; j < na; j++) items[q++] = mk_arg(&abs[j], ps[j]);
+    int q = 0; items[q++] = ty(kt); if (m) items[q++] = ty(vt);
+    for (int j = 0; j < na; j++) items[q++] = mk_arg_t(&abs[j], ps[j], m ? ((j % 2) ? vt : kt) : kt);
     items[q] = Terminal;
     var args = $(Tuple, items);
     V_TRY(exc, H[c] = new_with(K == 'A' ? Array : K == 'L' ? List : K == 'T' ? Table : Tree, args));
-    sh[c].kind = K;
+    sh[c].kind = K; sh[c].kt = kt; sh[c].vt = vt;
     if (m) for (int j = 0; j + 1 < na; j += 2) mset_ref(&sh[c], ps[j], ps[j+1]);
     else for (int j = 0; j < na; j++) vpush(&sh[c].a, ps[j]);
     free(ps); free(abs); free(items);
@@ -438,7 +453,7 @@ static int run_op(var* H, char** tk, int nt) {
       if (app) V_TRY(exc, append(H[c], $(Box, pt))); else V_TRY(exc, push(H[c], $(Box, pt)));
       if (exc) del(pt);
     } else {
-      if (app) V_TRY(exc, append(H[c], mk_arg(&ab, p))); else V_TRY(exc, push(H[c], mk_arg(&ab, p)));
+      if (app) V_TRY(exc, append(H[c], mk_arg_t(&ab, p, sh[c].kt))); else V_TRY(exc, push(H[c], mk_arg_t(&ab, p, sh[c].kt)));
     }
     if (!exc) vpush(&sh[c].a, p);
     check_and_print(H, RN(exc), (int)c, -1); return 1;
@@ -446,7 +461,7 @@ static int run_op(var* H, char** tk, int nt) {
   if (!strcmp(op, "pushat")) {
     if (nt != 4 || !NUM(1, c, 0) || !NUM(2, i, 1) || !NUM(3, p, 0) || !used_name(c) || (sh[c].kind != K_ARR && sh[c].kind != K_LST)) return 0;
     size_t ln = sh[c].a.n; ctx_op = OP_PUSHAT; ctx_kind = sh[c].kind;
-    V_TRY(exc, push_at(H[c], mk_arg(&ab, p), $I(i)));
+    V_TRY(exc, push_at(H[c], mk_arg_t(&ab, p, sh[c].kt), $I(i)));
     /* reference: Array normalises against len+1 (the end is a valid position); List: 0 = head, otherwise the
        position of an existing element (normalised against len) */
     int64_t j; int okpos;
@@ -475,7 +490,7 @@ static int run_op(var* H, char** tk, int nt) {
     if (nt != 4 || !NUM(1, c, 0) || !NUM(2, i, 1) || !NUM(3, p, 0) || !used_name(c) || !is_seq(sh[c].kind)) return 0;
     ctx_op = OP_SET; ctx_kind = sh[c].kind;
     if (sh[c].kind == K_BARR) { var pt = mk_pointee(p); V_TRY(exc, set(H[c], $I(i), $(Box, pt))); if (exc) del(pt); }
-    else V_TRY(exc, set(H[c], $I(i), mk_arg(&ab, p)));
+    else V_TRY(exc, set(H[c], $I(i), mk_arg_t(&ab, p, !sh[c].kt)));   /* an argument of the other element type: the elements are convertible */
     ctx_raised = exc != NULL;
     int64_t ln = (int64_t)sh[c].a.n, j = i < 0 ? ln + i : i;
     if (j >= 0 && j < ln) sh[c].a.v[j] = p;
@@ -483,7 +498,7 @@ static int run_op(var* H, char** tk, int nt) {
   }
   if (!strcmp(op, "rem")) {
     if (nt != 3 || !NUM(1, c, 0) || !NUM(2, p, 0) || !used_name(c) || (sh[c].kind != K_ARR && sh[c].kind != K_LST)) return 0;
-    V_TRY(exc, rem(H[c], mk_arg(&ab, p)));
+    V_TRY(exc, rem(H[c], mk_arg_t(&ab, p, sh[c].kt)));
     for (size_t j = 0; j < sh[c].a.n; j++) if (sh[c].a.v[j] == p || (p == 0 && sh[c].a.v[j] < 0)) { verase(&sh[c].a, j); break; }
     check_and_print(H, RN(exc), (int)c, -1); return 1;
   }
@@ -526,26 +541,26 @@ static int run_op(var* H, char** tk, int nt) {
     V_TRY(exc, assign(H[c], H[d]));
     if (c == d) { sh[c].a.n = sh[c].b.n = 0; }      /* the container is cleared before it is read */
     else { vcopy(&sh[c].a, &sh[d].a); vcopy(&sh[c].b, &sh[d].b); for (size_t j = 0; j < sh[c].a.n; j++) if (sh[c].a.v[j] < 0) sh[c].a.v[j] = 0; }
-    sh[c].kind = nk;
+    sh[c].kind = nk; sh[c].kt = sh[d].kt; sh[c].vt = sh[d].vt;   /* *_Assign takes the element types of the source */
     check_and_print(H, RN(exc), (int)c, (int)d); return 1;
   }
   if (!strcmp(op, "copy")) {
     if (nt != 3 || !NUM(1, c, 0) || !NUM(2, d, 0) || !free_name(c) || !used_name(d)) return 0;
     ctx_op = OP_COPYLIKE;
     V_TRY(exc, H[c] = copy(H[d]));
-    sh[c].kind = sh[d].kind; vcopy(&sh[c].a, &sh[d].a); vcopy(&sh[c].b, &sh[d].b);
+    sh[c].kind = sh[d].kind; sh[c].kt = sh[d].kt; sh[c].vt = sh[d].vt; vcopy(&sh[c].a, &sh[d].a); vcopy(&sh[c].b, &sh[d].b);
     for (size_t j = 0; j < sh[c].a.n; j++) if (sh[c].a.v[j] < 0) sh[c].a.v[j] = 0;
     check_and_print(H, RN(exc), (int)c, (int)d); return 1;
   }
   if (!strcmp(op, "mset")) {
     if (nt != 4 || !NUM(1, c, 0) || !NUM(2, k, 0) || !NUM(3, v, 0) || !used_name(c) || !is_map(sh[c].kind)) return 0;
-    V_TRY(exc, set(H[c], mk_arg(&ab, k), mk_arg(&ab2, v)));
+    V_TRY(exc, set(H[c], mk_arg_t(&ab, k, sh[c].kt), mk_arg_t(&ab2, v, sh[c].vt)));
     mset_ref(&sh[c], k, v);
     check_and_print(H, RN(exc), (int)c, -1); return 1;
   }
   if (!strcmp(op, "mrem")) {
     if (nt != 3 || !NUM(1, c, 0) || !NUM(2, k, 0) || !used_name(c) || !is_map(sh[c].kind)) return 0;
-    V_TRY(exc, rem(H[c], mk_arg(&ab, k)));
+    V_TRY(exc, rem(H[c], mk_arg_t(&ab, k, sh[c].kt)));
     long j = mfind(&sh[c], k);
     if (j >= 0) { verase(&sh[c].a, (size_t)j); verase(&sh[c].b, (size_t)j); }
     if ((exc != NULL) == (j >= 0) && oracle_on) X("sig=own-contents line=%zu what=rem outcome %s disagrees with the reference", cur_line, RN(exc));
@@ -564,9 +579,9 @@ static int run_op(var* H, char** tk, int nt) {
     if (K == K_ARR || K == K_LST) {
       V_TRY(exc, {
         size_t ln = len(h);
-        foreach (it in h) { sum += ((struct Probe*)it)->pay; cnt++; }
-        if (ln) { sum += ((struct Probe*)get(h, $I(0)))->pay; sum += ((struct Probe*)get(h, $I(-1)))->pay; }
-        sum += mem(h, mk_arg(&ab, 3)); sum += (int64_t)(hash(h) & 1); sum += eq(h, h);
+        foreach (it in h) { sum += core_of(it)->pay; cnt++; }
+        if (ln) { sum += core_of(get(h, $I(0)))->pay; sum += core_of(get(h, $I(-1)))->pay; }
+        sum += mem(h, mk_arg_t(&ab, 3, sh[c].kt)); sum += (int64_t)(hash(h) & 1); sum += eq(h, h);
         if (cnt != ln && oracle_on) X("sig=own-len line=%zu what=iteration yields %zu elements, len() is %zu", cur_line, cnt, ln);
       });
     } else if (K == K_BARR) {
@@ -579,9 +594,9 @@ static int run_op(var* H, char** tk, int nt) {
     } else if (K == K_TBL || K == K_TRE) {
       V_TRY(exc, {
         size_t ln = len(h);
-        foreach (key in h) { sum += ((struct Probe*)key)->pay; sum += ((struct Probe*)get(h, key))->pay; cnt++; }
-        sum += mem(h, mk_arg(&ab, 17)); sum += (int64_t)(hash(h) & 1); sum += eq(h, h);
-        if (sh[c].a.n) sum += ((struct Probe*)get(h, mk_arg(&ab2, sh[c].a.v[0])))->pay;
+        foreach (key in h) { sum += core_of(key)->pay; sum += core_of(get(h, key))->pay; cnt++; }
+        sum += mem(h, mk_arg_t(&ab, 17, sh[c].kt)); sum += (int64_t)(hash(h) & 1); sum += eq(h, h);
+        if (sh[c].a.n) sum += core_of(get(h, mk_arg_t(&ab2, sh[c].a.v[0], sh[c].kt)))->pay;
         if (cnt != ln && oracle_on) X("sig=own-len line=%zu what=iteration yields %zu keys, len() is %zu", cur_line, cnt, ln);
       });
     } else {
